@@ -66,8 +66,8 @@ CHECKS = {
         "optimal, every yielded tuple feasible with its objective and within the gap, no duplicates, non-decreasing order, nothing within the "
         "gap lost except supersets of yielded solutions, typed read-back, unique escaped names; (ii) exhaustive: product of 1-4 factors is the "
         "AND for every factor assignment (min and max of the product variable), abssum equals the weighted sum of absolute values for all sign "
-        "patterns of 1-4 terms; (iii) every model the structure / major / minor stages build for drawn toy-gene problems is exported and solved "
-        "with SCIP and HiGHS, each yielded point re-verified against the exported rows, and the exhausted model re-solved.",
+        "patterns of 1-4 terms; (iii) every model the structure / major / minor stages build for drawn toy-gene problems and for generated cases "
+        "of the C02/C03/C04 checks is exported and solved with SCIP and HiGHS, each yielded point re-verified against the exported rows, and the exhausted model re-solved.",
         "CBC path only (Gurobi absent); SCIP/HiGHS trusted as independent solvers.",
         "DESIGN.md 5/C05",
     ),
